@@ -53,8 +53,8 @@ func Open(r io.ReaderAt, size int64) (*XAR, error) {
 		heap:     io.NewSectionReader(r, base, 1<<62),
 	}
 	if toc.Signature != nil {
-		s.ClassicSignature = make([]byte, toc.Signature.Size)
-		if _, err := r.ReadAt(s.ClassicSignature, base+toc.Signature.Offset); err != nil {
+		s.ClassicSignature, err = readHeapItem(r, base+toc.Signature.Offset, toc.Signature.Size)
+		if err != nil {
 			return nil, fmt.Errorf("reading signature: %w", err)
 		}
 		s.Certificates, err = parseCertificates(toc.Signature)
@@ -63,8 +63,8 @@ func Open(r io.ReaderAt, size int64) (*XAR, error) {
 		}
 	}
 	if toc.XSignature != nil {
-		s.CMSSignature = make([]byte, toc.XSignature.Size)
-		if _, err := r.ReadAt(s.CMSSignature, base+toc.XSignature.Offset); err != nil {
+		s.CMSSignature, err = readHeapItem(r, base+toc.XSignature.Offset, toc.XSignature.Size)
+		if err != nil {
 			return nil, fmt.Errorf("reading CMS signature: %w", err)
 		}
 	}
@@ -77,6 +77,21 @@ func Open(r io.ReaderAt, size int64) (*XAR, error) {
 		s.NotaryTicket = ticket
 	}
 	return s, nil
+}
+
+// readHeapItem reads an item whose position and size come from the
+// (untrusted) TOC: read what is there instead of allocating by the size.
+func readHeapItem(r io.ReaderAt, offset, size int64) ([]byte, error) {
+	if offset < 0 || size < 0 {
+		return nil, errors.New("invalid offset or size")
+	}
+	blob, err := io.ReadAll(io.NewSectionReader(r, offset, size))
+	if err != nil {
+		return nil, err
+	} else if int64(len(blob)) != size {
+		return nil, io.ErrUnexpectedEOF
+	}
+	return blob, nil
 }
 
 func parseHeader(r io.Reader) (hdr fileHeader, hashType crypto.Hash, err error) {
